@@ -15,6 +15,8 @@ import random
 import time as _time
 from typing import Any
 
+from harness import runstate as RS
+
 EPOCH = 1_000_000.0
 # name -> (iterations until complete, failing iteration or -1)
 # (failing iteration 100 + i: the exec function calls set_complete() and then raises in iteration i)
@@ -179,8 +181,8 @@ class Run:
                           None if n is None else (n.started, n.completed, n.failed, n.cancelled, n.forced)))
         return {"runlog": self.runlog(), "nodes": nodes, "instances": sorted(self.uod.command_instances),
                 "log": len(self.log), "sys": str(e._system_tags[SystemTagName.SYSTEM_STATE].get_value()),
-                "flags": (e._runstate_started, e._runstate_paused, e._runstate_holding, e._runstate_stopping),
-                "executing": [(r.name, r.instance_id) for r in e._command_manager.cmd_executing],
+                "flags": (RS.flag(e, "started"), RS.flag(e, "paused"), RS.flag(e, "holding"), RS.flag(e, "stopping")),
+                "executing": [(r.name, r.instance_id) for r in RS.command_manager(e).cmd_executing],
                 "mark": e.tags["Mark"].get_value() if e.tags.has("Mark") else None}
 
     def tick(self) -> dict[str, Any]:
@@ -200,7 +202,7 @@ class Run:
                 "sys": str(e._system_tags[SystemTagName.SYSTEM_STATE].get_value()),
                 "run_id": e._system_tags[SystemTagName.RUN_ID].get_value(),
                 "simulated": sorted(t.name for t in e.tags if getattr(t, "simulated", False)),
-                "started": e._runstate_started, "paused": e._runstate_paused, "holding": e._runstate_holding,
+                "started": RS.flag(e, "started"), "paused": RS.flag(e, "paused"), "holding": RS.flag(e, "holding"),
                 "mark": e.tags["Mark"].get_value() if e.tags.has("Mark") else None}
 
     # ---------------------------------------------------------------- requests
@@ -213,9 +215,9 @@ class Run:
                 e.execute_control_command_from_user(op[1])
                 if self.uod.has_command_name(op[1]):
                     # a UOD command from the frontend's command buttons: accepted in every engine state
-                    req = list(e._command_manager.cmd_queue.queue)[-1]
-                    self.user_reqs[req.instance_id] = {"tick": self.tick_no, "started": e._runstate_started,
-                                                       "stopping": e._runstate_stopping}
+                    req = list(RS.command_manager(e).cmd_queue.queue)[-1]
+                    self.user_reqs[req.instance_id] = {"tick": self.tick_no, "started": RS.flag(e, "started"),
+                                                       "stopping": RS.flag(e, "stopping")}
             elif op[0] in ("cancel", "force"):
                 (e.cancel_instruction if op[0] == "cancel" else e.force_instruction)(op[1])
             else:
@@ -364,7 +366,7 @@ def execute(case: dict[str, Any]) -> dict[str, Any]:
                     rec["before"] = run.fingerprint()
                     rec["result"] = run.request(op)
                     rec["after"] = run.fingerprint()
-                    rec["paused_after"] = (run.engine._runstate_paused, run.engine._runstate_holding)
+                    rec["paused_after"] = (RS.flag(run.engine, "paused"), RS.flag(run.engine, "holding"))
                 else:
                     rec["result"] = run.request(op)
                 out["requests"].append(rec)
